@@ -696,6 +696,7 @@ func (c *EvalCtx) evalIndex(e *SExpr) (SV, error) {
 		es := ex.tm.SortOf(t.Elem())
 		el := ex.heapGet(c.st, ElemKey(es), SArray(SInt, SArray(SInt, es)))
 		arr := ts.SelectField(ex.tm.slice, 0, tv.T)
+		ex.arrIs(arr, t.Elem())
 		off := ts.SelectField(ex.tm.slice, 1, tv.T)
 		v := ts.Select(ts.Select(el, arr), ts.Add(off, idx))
 		ex.assumeRange(c.st.PC, v, t.Elem())
@@ -822,6 +823,39 @@ func (c *EvalCtx) evalCall(e *SExpr) (SV, error) {
 			return SV{}, fmt.Errorf("as: %s is not a pointer-like type", e.Args[1])
 		}
 		return SV{V: TV{v}, T: ty}, nil
+	case "isnew":
+		// isnew(x): object x was allocated by this call (it did not exist at entry)
+		if len(e.Args) != 1 {
+			return SV{}, fmt.Errorf("isnew takes one argument")
+		}
+		x, xt, err := c.evalTerm(e.Args[0])
+		if err != nil {
+			return SV{}, err
+		}
+		if x.Sort != SInt {
+			return SV{}, fmt.Errorf("isnew wants a reference")
+		}
+		var wantEl types.Type
+		if xt != nil {
+			wantEl = derefType(xt)
+		}
+		// one of the objects this execution allocated itself (objects that
+		// other threads created meanwhile are not "new" in this sense)
+		var alts []*Term
+		for _, a := range ex.ownAllocs {
+			if wantEl != nil {
+				// only objects of the very type x points to can be x
+				at, known := ex.ownAllocType[a]
+				if !known || typeKey(at) != typeKey(wantEl) {
+					continue
+				}
+			}
+			alts = append(alts, ts.Eq(x, a))
+		}
+		if len(alts) == 0 {
+			return SV{V: TV{ts.False()}, T: boolT}, nil
+		}
+		return SV{V: TV{ts.And(ts.Neq(x, ts.Int(0)), ts.Or(alts...))}, T: boolT}, nil
 	case "samearray":
 		// samearray(s, t): slices s and t share their backing array
 		if len(e.Args) != 2 {
